@@ -139,6 +139,39 @@ fn long_route() -> &'static str {
     L.get_or_init(|| format!("/long/{}", "L".repeat(9000)))
 }
 
+/// Byte offsets at which code that quotes, truncates or buffers a path might cut it.
+const BOUNDARIES: [usize; 8] = [16, 32, 64, 128, 256, 512, 1024, 4096];
+const WIDE: [&str; 3] = ["\u{e9}", "\u{4e16}", "\u{1f600}"]; // 2-, 3- and 4-byte characters
+/// A path (below `prefix`) in which a multi-byte character straddles byte offset `b`: it starts `j` bytes before it.
+fn straddle_path(prefix: &str, b: usize, ch: &str, j: usize, tail: &str) -> String {
+    let start = b - j.clamp(1, ch.len() - 1);
+    let mut p = String::from(prefix);
+    if !p.ends_with('/') { p.push('/'); }
+    while p.len() < start { p.push('s'); }
+    p.push_str(ch);
+    p.push_str(tail);
+    p
+}
+/// Registered exact routes with a 2-byte character across each boundary (the positive siblings of the unknown ones).
+fn straddle_routes() -> &'static [String] {
+    static L: std::sync::OnceLock<Vec<String>> = std::sync::OnceLock::new();
+    L.get_or_init(|| BOUNDARIES.iter().map(|b| straddle_path("/", *b, WIDE[(*b / 16) % 3], 1, "")).collect())
+}
+fn gen_straddle_path(r: &mut Rng) -> String {
+    let b = *r.pick(&BOUNDARIES);
+    let ch = *r.pick(&WIDE);
+    let j = r.range(1, ch.len() as u64 - 1) as usize;
+    match r.below(6) {
+        // registered sibling
+        0 => r.pick(straddle_routes()).clone(),
+        // unknown exact path; below a registry / struct / tree mount (their errors quote the path too)
+        1 | 2 => straddle_path("/", b, ch, j, *r.pick(&["", "x", "/t"])),
+        3 => straddle_path("/reg/", b, ch, j, ""),
+        4 => straddle_path("/dev/", b, ch, j, ""),
+        _ => straddle_path("/tree/n/", b, ch, j, ""),
+    }
+}
+
 /// A struct mount that is a binary tree 40 levels deep (children `n` and `m` at every node) and stateless: a path of
 /// existing segments is answered with its depth and the segments the handler was given, anything else is an invalid
 /// path. Deep paths (15..40 segments) that exist and deep paths whose k-th segment does not exist both occur.
@@ -310,6 +343,9 @@ fn expected_route(path: &str) -> Option<RouteSpec> {
     if path == long_route() {
         return Some(RouteSpec { path: long_route(), hk: HK::Json, var: 0, blocking: false });
     }
+    if let Some(p) = straddle_routes().iter().find(|p| p.as_str() == path) {
+        return Some(RouteSpec { path: p.as_str(), hk: HK::Json, var: 0, blocking: false });
+    }
     let hit = |m: &str| path == m || (path.starts_with(m) && path.as_bytes().get(m.len()) == Some(&b'/'));
     for want in [HK::Registry, HK::Struct] {
         for (m, hk, var) in MOUNTS {
@@ -474,7 +510,10 @@ fn make_router(c: &Counters, wrapped: bool) -> Router {
     let router = router.with_struct_shared::<Device, RwLock<Device>>("/devrw", Arc::new(RwLock::new(Device { gain: 3, label: "x".into() })));
     let (router, _tree) = router.with_struct("/tree", Tree);
     let (router, _consts) = router.with_struct("/const", Consts { gain: 7, label: "c".into() });
-    let router = router.with_json(long_route(), mk(long_route(), c));
+    let mut router = router.with_json(long_route(), mk(long_route(), c));
+    for p in straddle_routes() {
+        router = router.with_json(p, mk(p.as_str(), c));
+    }
     if wrapped {
         router.with_middleware(gate_mw)
     } else {
@@ -956,6 +995,7 @@ fn gen_id(r: &mut Rng, seq: u64, k: u64, used: &mut HashSet<u64>) -> u64 {
 fn gen_request(r: &mut Rng, id: u64) -> ReqSpec {
     // path: mostly a registered route (exact or below a mount), else an unregistered / malformed one
     let query: Vec<u8> = match r.below(10) {
+        0 if r.chance(1, 2) => gen_straddle_path(r).into_bytes(),
         0 | 1 => r.pick(ODD_PATHS).to_vec(),
         2 | 3 => r.pick(MOUNT_PATHS).as_bytes().to_vec(),
         4 => match r.below(4) {
@@ -2041,6 +2081,45 @@ fn stalled_sender(out: &mut Rec, sv: &Servers, epname: &str, k: usize, cut: usiz
     }
 }
 
+/// A connection that carries only notifies for longer than the configured read timeout (300 ms), each gap far below
+/// it: the peer is never idle, so every notify must reach its handler and the request after them must be answered.
+/// (If this machine was too slow to keep the gaps short the case is skipped, never failed.)
+fn notify_keepalive(out: &mut Rec, sv: &Servers, epname: &str, n: usize, seqno: usize) {
+    let ep = sv.ep(epname);
+    let ops = vec![format!("keepalive {} {} {}", seqno, epname, n)];
+    let Ok(mut s) = std::net::TcpStream::connect(ep.addr) else { out.count("dispatch.keepalive.connect_failed"); return };
+    s.set_nodelay(true).ok();
+    let before = ep.counters.closure_count("/json");
+    let mut last = Instant::now();
+    let mut worst = Duration::ZERO;
+    for i in 0..n {
+        if s.write_all(&RawFrame::request(995_000 + i as u64, true, 1, b"/json", 2, b"[0]").to_vec()).is_err() { break; }
+        worst = worst.max(last.elapsed());
+        last = Instant::now();
+        std::thread::sleep(Duration::from_millis(50));
+    }
+    let _ = s.write_all(&RawFrame::request(996_000, false, 1, b"/json", 2, b"[1]").to_vec());
+    worst = worst.max(last.elapsed());
+    if worst > Duration::from_millis(150) { out.count("dispatch.keepalive.skipped_slow_machine"); return; }
+    let bytes = {
+        let mut bytes = Vec::new();
+        let mut tmp = [0u8; 4096];
+        s.set_read_timeout(Some(Duration::from_secs(8))).ok();
+        loop {
+            match s.read(&mut tmp) { Ok(0) | Err(_) => break, Ok(k) => bytes.extend_from_slice(&tmp[..k]) }
+            if !RawFrame::split_stream(&bytes).0.is_empty() { break; }
+        }
+        bytes
+    };
+    let ids: Vec<u64> = RawFrame::split_stream(&bytes).0.iter().map(|f| f.h.id).collect();
+    let ran = ep.counters.closure_count("/json") - before;
+    if ids != [996_000] || ran != n as u64 + 1 {
+        out.oracle_fail(&format!("dispatch.{}.notifies_do_not_keep_connection_alive", epname), &format!("{} notifies 50 ms apart (read timeout 300 ms), then a request: responses {:?}, handler ran {} times (expected {})", n, ids, ran, n + 1), &ops);
+    } else {
+        out.count("dispatch.keepalive.ok");
+    }
+}
+
 /// (m) An inline handler that panics on a TCP server takes its connection down. C03 says nothing about that request;
 /// the requests before it were answered and flushed before it was even read, so their responses must have arrived.
 fn tcp_inline_panic(out: &mut Out, sv: &Servers, epname: &str, payload: &str, seqno: usize) {
@@ -2363,9 +2442,10 @@ fn gen_pressure(r: &mut Rng, base_id: u64) -> Vec<ReqSpec> {
 /// (g) N identical events back to back on one connection, then one ordinary request: the N-th is treated like the
 /// first. Returns the requests and whether the client should stall before reading (long runs against the default
 /// outbound queue of 256).
-fn gen_run(r: &mut Rng, base_id: u64, thorough: bool) -> (Vec<ReqSpec>, u64) {
-    let kind = r.below(16);
-    let mut n = *r.pick(&[1usize, 2, 7, 8, 9, 16, 17, 64, 65, 255, 256, 257]) ;
+fn gen_run(r: &mut Rng, base_id: u64, thorough: bool, first: bool) -> (Vec<ReqSpec>, u64) {
+    // the first run of a run is always a long one of routing refusals (a counter of consecutive refusals must show early)
+    let kind = if first { *r.pick(&[0u64, 1, 2, 3]) } else { r.below(16) };
+    let mut n = if first { *r.pick(&[65usize, 257]) } else { *r.pick(&[1usize, 2, 7, 8, 9, 16, 17, 64, 65, 255, 256, 257]) };
     if thorough && r.chance(1, 6) { n = 1000; }
     // more than 16 concurrent off-reader requests may meet the per-connection cap (C16's subject)
     if kind == 13 { n = n.min(16); }
@@ -2425,6 +2505,35 @@ fn gen_error_sweep(base_id: u64) -> Vec<ReqSpec> {
     }
     for n in 0..11 {
         v.push(mk(next(), if n % 2 == 0 { b"/json" } else { b"/json_b" }, 2, format!("{{\"fail\":{}}}", n).into_bytes()));
+    }
+    v
+}
+
+/// Paths whose multi-byte characters straddle the byte offsets in `BOUNDARIES`, in every place a path is echoed or
+/// quoted back (unknown path, path below a registry / struct / tree mount, rejected query format / version with such a
+/// query, a registered route whose closure fails), each followed by an ordinary request on the same connection.
+fn gen_straddle_sweep(r: &mut Rng, base_id: u64) -> Vec<ReqSpec> {
+    let mk = |id: u64, path: &[u8], bf: u16, body: &[u8]| { let f = RawFrame::request(id, false, 1, path, bf, body); ReqSpec { h: f.h, query: path.to_vec(), body: body.to_vec(), pings: 0 } };
+    let mut v = Vec::new();
+    let mut id = base_id;
+    for b in BOUNDARIES {
+        for ch in WIDE {
+            let j = r.range(1, ch.len() as u64 - 1) as usize;
+            id += 1;
+            let mut q = match r.below(6) {
+                0 => mk(id, straddle_path("/reg/", b, ch, j, "").as_bytes(), 2, b""),
+                1 => mk(id, straddle_path("/dev/", b, ch, j, "").as_bytes(), 2, b""),
+                2 => { let mut q = mk(id, straddle_path("/", b, ch, j, "").as_bytes(), 2, b"{}"); q.h.query_format = *r.pick(&[0u16, 2]); q }
+                3 => { let mut q = mk(id, straddle_path("/", b, ch, j, "").as_bytes(), 2, b"{}"); q.h.version = 2; q }
+                _ => mk(id, straddle_path("/", b, ch, j, *r.pick(&["", "x"])).as_bytes(), 2, b"{}"),
+            };
+            if r.chance(1, 6) { q.h.notify = 1; }
+            v.push(q);
+        }
+        id += 1;
+        v.push(mk(id, straddle_routes()[BOUNDARIES.iter().position(|x| *x == b).unwrap()].as_bytes(), 2, if r.chance(1, 2) { b"{\"fail\":6}" } else { b"[1]" }));
+        id += 1;
+        v.push(mk(id, b"/json", 2, b"[\"behind\"]"));
     }
     v
 }
@@ -2581,6 +2690,7 @@ fn main() {
                 Some("manyconn") => many_connections(&mut out, &sv, w[2], w[3].parse().unwrap(), 0),
                 Some("saturate") => saturate(&mut rec, &sv, w[2].parse().unwrap(), w[3].parse().unwrap(), w[4] == "1", 0),
                 Some("offfull") => offreader_backpressure(&mut out, &sv, w[2], w[3].parse().unwrap(), w[4].parse().unwrap(), 0),
+                Some("keepalive") => notify_keepalive(&mut rec, &sv, w[2], w[3].parse().unwrap(), 0),
                 Some("stall") => stalled_sender(&mut rec, &sv, w[2], w[3].parse().unwrap(), w[4].parse().unwrap(), w[5] == "1", 0),
                 Some("tcppanic") => tcp_inline_panic(&mut out, &sv, w[2], w[3], 0),
                 Some("shutdown") => shutdown_midflight(&mut rec, &sv, w[2] == "1", w[3].parse().unwrap(), 0),
@@ -2629,10 +2739,13 @@ fn main() {
                 if rng.chance(1, 2) { params.stall = 250; }
                 gen_pressure(&mut rng, base)
             } else if s % 8 == 2 {
-                let (v, stall) = gen_run(&mut rng, base, args.thorough());
+                let (v, stall) = gen_run(&mut rng, base, args.thorough(), s == 2);
                 params.stall = stall;
                 out.count("dispatch.run_sequences");
                 v
+            } else if s % 32 == 1 {
+                out.count("dispatch.straddle_sweeps");
+                gen_straddle_sweep(&mut rng, base)
             } else if s % 64 == 9 {
                 out.count("dispatch.error_sweeps");
                 gen_error_sweep(base)
@@ -2667,7 +2780,9 @@ fn main() {
                 1 => { let m = rng.range(3, 6) as usize; offreader_backpressure(&mut out, &sv, *rng.pick(&["wsq", "wsp", "wsb", "wsn"]), m, if args.thorough() { *rng.pick(&[400u64, 900]) } else { 350 }, s); }
                 6 => { let long = rng.chance(1, 2); let k = rng.range(0, 5) as usize; let cut = *rng.pick(&[1usize, 8, 47, 48, 49, 53, 56]); let ep = *rng.pick(&["tcps", "atcps"]);
                     if let Some(h) = deferred.take() { h.join().expect("scenario").merge(&mut out); }
-                    deferred = Some(sc.spawn(move || { let mut r = Rec::default(); stalled_sender(&mut r, sv, ep, k, cut, long, s); r })); }
+                    let keep = s % 32 == 22;
+                    let n = rng.range(10, 16) as usize;
+                    deferred = Some(sc.spawn(move || { let mut r = Rec::default(); if keep { notify_keepalive(&mut r, sv, ep, n, s) } else { stalled_sender(&mut r, sv, ep, k, cut, long, s) } r })); }
                 8 => tcp_inline_panic(&mut out, &sv, *rng.pick(&["tcp", "tcpn", "atcp", "atcpn", "tcpw", "atcpw"]), *rng.pick(&["str", "any"]), s),
                 12 => many_connections(&mut out, &sv, *rng.pick(&["tcp", "atcp", "ws", "wsn", "tcpn", "atcpn"]), 12, s),
                 4 if s == 20 => long_stalls(&mut out, &sv, &[300, 600, 1100], s),
